@@ -1,27 +1,81 @@
 /-
-Scratch prototype (design phase): PortNamespace.pre_process / validate (C11), mirroring ports.py.
-Values carry a type tag; validators are "reject if the value contains atom n".
+# Ports: parsing and validation of port values (C11; reused by C12)
+
+Executable mirror of `plumpy/ports.py` (`Port.validate`, `InputPort.required_override`, `InputPort.__init__`'s check of a
+plain default, `PortNamespace.pre_process`, `.validate`, `.validate_ports`, `.validate_dynamic_ports`) and of
+`Process.on_create` (`construct`).  Core Lean only.
+
+Conventions
+* A value is an atom with a type tag (`isinstance` is equality of tags; the harness uses 0 = `int`, 1 = `float`,
+  2 = `dict`) or a mapping, an association list in insertion order with a tag saying whether it is an immutable
+  `AttributesFrozendict` (`frozen = true`) or a plain `dict`.  `atom 0 0` is Python's `0`, the only falsy atom.
+* Python dictionaries have unique keys.  `lookup` reads the first entry of a key, `setKey` writes it (appending a new
+  key at the end, as `d[k] = v` does), `eraseKey` (`dict.pop`) removes every entry of the key.
+* User code is an oracle: `vd n v = true` means "validator `n` returns an error message for `v`"; callable defaults
+  are represented by the value they return.
+* Every place where the code raises is an explicit error: `Err.typeError` (a non-mapping where `pre_process` needs a
+  mapping), `Err.validation path` (a `PortValidationError`, raised as `ValueError` by `on_create` and `out`).
+* A mapping supplied for a declared namespace may be a plain dict or a frozen one (another process's `inputs.ns`
+  passed on): since the repair 7c12fde `pre_process` completes a copy of every declared level, so both are treated alike
+  (before it, a frozen one raised `TypeError` on the first item assignment and a dict *default* was completed in place).
+  A frozen mapping is not a `dict` for `isinstance` nor for the recursion of `validate_dynamic_ports`.
 -/
 namespace Ports
 
 inductive V where
   | atom (ty : Nat) (id : Nat)
-  | dict (items : List (String × V))
+  | dict (frozen : Bool) (items : List (String × V))
 deriving Repr, Inhabited, BEq
 
-/-- does the value mention atom `n` anywhere -/
+abbrev Items := List (String × V)
+
+mutual
+def V.decEq : (a b : V) → Decidable (a = b)
+  | .atom t i, .atom t' i' =>
+      if h : t = t' ∧ i = i' then isTrue (by rw [h.1, h.2]) else isFalse (by intro e; cases e; exact h ⟨rfl, rfl⟩)
+  | .atom _ _, .dict _ _ => isFalse (by intro e; cases e)
+  | .dict _ _, .atom _ _ => isFalse (by intro e; cases e)
+  | .dict f xs, .dict f' ys =>
+      if hf : f = f' then
+        match V.decEqL xs ys with
+        | isTrue h => isTrue (by rw [hf, h])
+        | isFalse h => isFalse (by intro e; cases e; exact h rfl)
+      else isFalse (by intro e; cases e; exact hf rfl)
+def V.decEqL : (a b : List (String × V)) → Decidable (a = b)
+  | [], [] => isTrue rfl
+  | [], _ :: _ => isFalse (by intro e; cases e)
+  | _ :: _, [] => isFalse (by intro e; cases e)
+  | (k, v) :: xs, (k', v') :: ys =>
+      if hk : k = k' then
+        match V.decEq v v', V.decEqL xs ys with
+        | isTrue h1, isTrue h2 => isTrue (by rw [hk, h1, h2])
+        | isFalse h1, _ => isFalse (by intro e; cases e; exact h1 rfl)
+        | _, isFalse h2 => isFalse (by intro e; cases e; exact h2 rfl)
+      else isFalse (by intro e; cases e; exact hk rfl)
+end
+instance : DecidableEq V := V.decEq
+
+deriving instance DecidableEq for Except
+
+/-- Python truthiness, negated: `not value` -/
+def V.falsy : V → Bool
+  | .atom ty id => ty == 0 && id == 0
+  | .dict _ items => items.isEmpty
+
+/-- does the value mention atom `n` anywhere (the validators used by the driver and the harness) -/
 def V.mentions (n : Nat) : V → Bool
   | .atom _ id => id == n
-  | .dict items => mentionsL n items
+  | .dict _ items => mentionsL n items
 where
   mentionsL (n : Nat) : List (String × V) → Bool
     | [] => false
     | (_, v) :: rest => V.mentions n v || mentionsL n rest
 
 structure LeafA where
-  required : Bool
+  required : Bool                 -- as declared; see `LeafA.req`
   validType : Option Nat
-  default : Option V          -- plain or callable default: same value once evaluated
+  default : Option V              -- plain or callable default: the value once evaluated
+  callable : Bool                 -- the default is a callable (then `InputPort.__init__` does not validate it)
   validator : Option Nat
 deriving Repr, Inhabited
 
@@ -39,109 +93,165 @@ inductive Port where
   | ns (a : NsA) (ports : List (String × Port))
 deriving Repr, Inhabited
 
-inductive Err | typeError | validation (path : String)
-deriving Repr, Inhabited, BEq
+abbrev PortList := List (String × Port)
 
-def lookup (k : String) : List (String × V) → Option V
+inductive Err
+  | typeError
+  | valueError
+  | attributeError
+  | validation (path : String)
+deriving Repr, Inhabited, BEq, DecidableEq
+
+/-- `InputPort.required_override`: a port with a default is never required -/
+def LeafA.req (a : LeafA) : Bool := a.required && a.default.isNone
+
+def lookup {α} (k : String) : List (String × α) → Option α
   | [] => none
   | (k', v) :: rest => if k = k' then some v else lookup k rest
-def setKey (k : String) (v : V) : List (String × V) → List (String × V)
+def setKey {α} (k : String) (v : α) : List (String × α) → List (String × α)
   | [] => [(k, v)]
   | (k', v') :: rest => if k = k' then (k, v) :: rest else (k', v') :: setKey k v rest
-def popKey (k : String) : List (String × V) → List (String × V)
+def eraseKey {α} (k : String) : List (String × α) → List (String × α)
   | [] => []
-  | (k', v') :: rest => if k = k' then rest else (k', v') :: popKey k rest
+  | (k', v') :: rest => if k = k' then eraseKey k rest else (k', v') :: eraseKey k rest
 
-/-- `pre_process`: complete `vals` with the declared defaults (in place in the code; functional here) -/
-def preProcess : List (String × Port) → List (String × V) → Except Err (List (String × V))
-  | [], vals => .ok vals
-  | (name, .leaf a) :: rest, vals =>
+/-- what `pre_process` does for a namespace port given the entry of the parent mapping -/
+inductive Start | skip | bad | go (items : Items)
+
+/-- the first half of the loop body of `pre_process` for a namespace port: which mapping is completed -/
+def nsStart (a : NsA) (hasPorts : Bool) : Option V → Start
+  | some (.dict _ items) => .go items            -- `port_value = port_values[name]`
+  | some (.atom _ _) => .bad                     -- `name not in 5` / `dict(5)`: TypeError
+  | none =>
+      if !a.populate then .skip                  -- `populate_defaults=False`: skipped entirely
+      else match a.default with
+        | some (.dict _ d) => .go d              -- the namespace's own default
+        | some (.atom _ _) => .bad
+        | none => if hasPorts then .go [] else .skip
+
+mutual
+/-- the loop body of `pre_process` for one declared port: the parent mapping after the assignment (if any) -/
+def preProcessPort (name : String) : Port → Items → Except Err Items
+  | .leaf a, vals =>
       match lookup name vals with
-      | some _ => preProcess rest vals
+      | some _ => .ok vals                           -- `port_values[name] = port_values[name]`
       | none =>
         match a.default with
-        | some d => preProcess rest (setKey name d vals)
-        | none => preProcess rest vals
-  | (name, .ns a ports) :: rest, vals =>
-      match lookup name vals with
-      | none =>
-        if !a.populate then preProcess rest vals else
-        let start : Option V := match a.default with
-          | some d => some d
-          | none => if ports.isEmpty then none else some (.dict [])
-        match start with
-        | none => preProcess rest vals
-        | some (.dict items) =>
-            match preProcess ports items with
-            | .ok items' => preProcess rest (setKey name (.dict items') vals)
-            | .error e => .error e
-        | some (.atom _ _) => .error .typeError
-      | some (.dict items) =>
-          match preProcess ports items with
-          | .ok items' => preProcess rest (setKey name (.dict items') vals)
+        | some d => .ok (setKey name d vals)         -- plain default, or the value the callable returns
+        | none => .ok vals
+  | .ns a ports, vals =>
+      match nsStart a (!ports.isEmpty) (lookup name vals) with
+      | .skip => .ok vals
+      | .bad => .error .typeError
+      | .go items =>
+          match preProcess ports items with          -- the nested result is an `AttributesFrozendict`
+          | .ok items' => .ok (setKey name (.dict true items') vals)
           | .error e => .error e
-      | some (.atom _ _) => .error .typeError
 
-def isInstance (v : V) (ty : Nat) : Bool := match v with | .atom t _ => t == ty | .dict _ => ty == 99
+/-- `PortNamespace.pre_process`: complete `vals` with the declared defaults, port by port in declaration order
+(in place in the code, functional here) -/
+def preProcess : PortList → Items → Except Err Items
+  | [], vals => .ok vals
+  | (name, p) :: rest, vals =>
+      match preProcessPort name p vals with
+      | .ok vals' => preProcess rest vals'
+      | .error e => .error e
+end
 
-def runValidator (vd : Option Nat) (v : V) : Bool := match vd with | some n => v.mentions n | none => false
+/-- `isinstance(value, valid_type)`; a plain dict is an instance of type 2 (`dict`), a frozen mapping of none -/
+def isInstance (v : V) (ty : Nat) : Bool :=
+  match v with
+  | .atom t _ => t == ty
+  | .dict frozen _ => !frozen && ty == 2
+
+def rejects (vd : Nat → V → Bool) (validator : Option Nat) (v : V) : Bool :=
+  match validator with | some n => vd n v | none => false
 
 def join (bc : List String) : String := ".".intercalate bc
 
-/-- `validate_dynamic_ports` on the values left after the explicit ports were popped -/
-def validateDynamicV (ty : Nat) (bc : List String) : V → Option Err
-  | .atom t _ => if t == ty then none else some (.validation (join bc))
-  | .dict items => validateDynamicL ty bc items
-where
-  validateDynamicL (ty : Nat) (bc : List String) : List (String × V) → Option Err
-    | [] => none
-    | (k, v) :: rest =>
-        match validateDynamicV ty (bc ++ [k]) v with
-        | some e => some e
-        | none => validateDynamicL ty bc rest
+/-- `if not port_values: port_values = {}` followed by the `Mapping` test of `PortNamespace.validate`;
+`none` = not a mapping -/
+def nsItems : Option V → Option Items
+  | none => some []
+  | some (.dict _ items) => some items
+  | some (.atom ty id) => if (V.atom ty id).falsy then some [] else none
 
 mutual
-/-- `Port.validate` / `PortNamespace.validate` on an optional value (none = UNSPECIFIED) -/
-def validatePort (name : String) (bc : List String) : Port → Option V → Option Err
-  | .leaf a, none => if a.required then some (.validation (join (bc ++ [name]))) else none
+/-- the recursive part of `validate_dynamic_ports` for one value: `bc` are the breadcrumbs passed to the call -/
+def validateDynamicV (ty : Nat) (name : String) (bc : List String) : V → Option Err
+  | .atom t _ => if t == ty then none else some (.validation (join bc))
+  | .dict true _ => some (.validation (join bc))       -- not a `dict`, not of the valid type either
+  | .dict false items => validateDynamicL ty name bc items
+/-- `for key, value in port_values.items(): self.validate_dynamic_ports(value, (*breadcrumbs, self.name, key))` -/
+def validateDynamicL (ty : Nat) (name : String) (bc : List String) : Items → Option Err
+  | [] => none
+  | (k, v) :: rest =>
+      match validateDynamicV ty name (bc ++ [name, k]) v with
+      | some e => some e
+      | none => validateDynamicL ty name bc rest
+end
+
+/-- `validate_dynamic_ports(port_values, breadcrumbs)` called with a dictionary (the values left after the explicit
+ports were popped, or `{port_name: value}` in `out`).  In the recursive calls `self.dynamic` is true whenever the
+first test passed on a non-empty dictionary, so the test is not repeated there. -/
+def validateDynamic (a : NsA) (name : String) (bc : List String) (remaining : Items) : Option Err :=
+  if !remaining.isEmpty && !a.dynamic then some (.validation (join (bc ++ [name])))
+  else match a.validType with
+    | none => none
+    | some ty => validateDynamicL ty name bc remaining
+
+mutual
+/-- `Port.validate` / `PortNamespace.validate` on an optional value (`none` = `UNSPECIFIED`) -/
+def validatePort (vd : Nat → V → Bool) (name : String) (bc : List String) : Port → Option V → Option Err
+  | .leaf a, none => if a.req then some (.validation (join (bc ++ [name]))) else none
   | .leaf a, some v =>
       let tyBad := match a.validType with | some ty => !isInstance v ty | none => false
       if tyBad then some (.validation (join (bc ++ [name])))
-      else if runValidator a.validator v then some (.validation (join (bc ++ [name]))) else none
+      else if rejects vd a.validator v then some (.validation (join (bc ++ [name]))) else none
   | .ns a ports, val =>
       let bcl := bc ++ [name]
-      match val with
-      | some (.atom _ _) => some (.validation (join bcl))      -- not a Mapping
-      | _ =>
-        let items := match val with | some (.dict items) => items | _ => []
-        if items.isEmpty && !a.required then none else
-        match validatePorts bcl ports items with
+      match nsItems val with
+      | none => some (.validation (join bcl))                -- not a `Mapping`
+      | some items =>
+        if items.isEmpty && !a.required then none else       -- optional and empty: valid
+        match validatePorts vd bcl ports items with
         | .error e => some e
         | .ok remaining =>
-          if !remaining.isEmpty && !a.dynamic then some (.validation (join bcl)) else
-          let dynErr := match a.validType with
-            | none => none
-            | some ty => validateDynamicV.validateDynamicL ty bcl remaining
-          match dynErr with
+          match validateDynamic a name bc remaining with
           | some e => some e
-          | none => if runValidator a.validator (.dict items) then some (.validation (join bcl)) else none
+          | none =>                                          -- the validator sees the clone made before the pops
+            if rejects vd a.validator (.dict false items) then some (.validation (join bcl)) else none
 
-/-- `validate_ports`: pop and validate every explicit port, in declaration order -/
-def validatePorts (bc : List String) : List (String × Port) → List (String × V) → Except Err (List (String × V))
+/-- `validate_ports`: pop and validate every explicit port, in declaration order; returns what is left -/
+def validatePorts (vd : Nat → V → Bool) (bc : List String) : PortList → Items → Except Err Items
   | [], vals => .ok vals
   | (name, p) :: rest, vals =>
-      match validatePort name bc p (lookup name vals) with
+      match validatePort vd name bc p (lookup name vals) with
       | some e => .error e
-      | none => validatePorts bc rest (popKey name vals)
+      | none => validatePorts vd bc rest (eraseKey name vals)
 end
 
-/-- `Process.on_create`: parse then validate; the top-level namespace is called `inputs` -/
-def construct (top : NsA) (ports : List (String × Port)) (raw : List (String × V)) : Except Err (List (String × V)) :=
+/-- `Process.on_create`: parse, then validate against the top-level namespace `inputs`; the parsed inputs -/
+def construct (vd : Nat → V → Bool) (top : NsA) (ports : PortList) (raw : Items) : Except Err V :=
   match preProcess ports raw with
   | .error e => .error e
   | .ok parsed =>
-    match validatePort "inputs" [] (.ns top ports) (some (.dict parsed)) with
+    match validatePort vd "inputs" [] (.ns top ports) (some (.dict true parsed)) with
     | some e => .error e
-    | none => .ok parsed
+    | none => .ok (.dict true parsed)
+
+mutual
+/-- `InputPort.__init__`: a default that is not callable is validated when the port is declared
+(`ValueError('Invalid default value')` out of `define`) -/
+def defineOkPort (vd : Nat → V → Bool) (name : String) : Port → Bool
+  | .leaf a =>
+      match a.default with
+      | some d => a.callable || (validatePort vd name [] (.leaf a) (some d)).isNone
+      | none => true
+  | .ns _ ports => defineOk vd ports
+def defineOk (vd : Nat → V → Bool) : PortList → Bool
+  | [] => true
+  | (name, p) :: rest => defineOkPort vd name p && defineOk vd rest
+end
 
 end Ports
